@@ -53,6 +53,7 @@ fn main() {
         let text = print_tree(&xot, &reg, root);
         let line = format!("{} {} | {}", case, reg.tables(), text);
         out.case(&line);
+        xh::accessors::name_agreement(&case, &xot, root, &mut out, &mut stats);
         let (all, _) = preorder(&xot, root);
         let ndecl = all.iter().filter(|x| xot.is_namespace_node(**x)).count();
         stats.case(&text, ndecl >= 2);
